@@ -42,7 +42,7 @@ Print Assumptions C01_refuted.
 (* the general theorem available for the value side (all depths, all operand values): see props/C02.v *)
 Theorem C01_expressions_partial :
   forall (cfg : config) (rw : regwidth) (IM : string -> bool) (E : cenv) (csub : csubs) xi V e st,
-  cfg_params cfg = [] -> macs_std (cfg_macros cfg) -> subs_ext (cfg_subs cfg) -> csub_ext csub ->
+  cfg_params cfg = [] -> macs_std (cfg_macros cfg) -> subs_ext (cfg_subs cfg) -> csub_ext csub -> xi_ok xi ->
   lst_ok IM V st -> pfrag rw IM V e ->
   lower_expr cfg e st = lower_expr (with_fx all_fixes cfg) e st ->
   exists pv st', lower_expr cfg e st = OK (IPure pv, st') /\ st_ext st st' /\ lst_ok IM V st' /\
@@ -51,7 +51,7 @@ Theorem C01_expressions_partial :
       exists ilv, eval rw ms [] (fin_pure R rem (pv_term pv)) = Some ilv /\ shape_pv pv ilv /\
         forall fuel cs' cv, ceval E csub xi fuel cs e = Some (cs', cv) -> cs' = cs /\ agrees pv cv ilv.
 Proof.
-  intros cfg rw IM E csub xi V e st Hp Hm Hs Hc HV Hf Heq. rewrite Heq.
+  intros cfg rw IM E csub xi V e st Hp Hm Hs Hc Hx HV Hf Heq. rewrite Heq.
   apply (expr_correct_unconditional (with_fx all_fixes cfg) rw IM E csub xi V e st); auto.
 Qed.
 Print Assumptions C01_expressions_partial.
@@ -69,8 +69,8 @@ Proof. vm_compute. reflexivity. Qed.
    theorem holds for the configuration the real compiler has: *)
 From RZ.proofs Require Import SeqLaws StmtCorrect FragCheck.
 Theorem C01_covered_behaviours_correct : forall h prog, covered h prog = true ->
-  exists eff D' V', tlower_info (cfg_insn h) prog = OK (mkti eff h 0 false []) /\
-    forall ilsubs E csub xi cs ms fuel cs', csub_ext csub ->
+  exists eff h' D' V', tlower_info (cfg_insn h) prog = OK (mkti eff h' 0 false []) /\ (h <= h')%N /\
+    forall ilsubs E csub xi cs ms fuel cs', csub_ext csub -> xi_ok xi ->
       srel (IM_of prog) E [] [] cs ms -> imm_fresh (IM_of prog) cs -> cexecs E csub xi fuel cs prog = Some cs' ->
       exists ms', runs (rw_of_prog prog) ilsubs eff ms ms' /\ srel (IM_of prog) E D' V' cs' ms'.
 Proof. exact covered_correct. Qed.
